@@ -14,6 +14,8 @@ import math
 
 import numpy as np
 
+from .. import harness as H
+
 from .. import smooth as S
 from ..oracles import whittaker as W
 
@@ -216,11 +218,12 @@ def shard_accessor(spec, R):
                 y = np.where(y == nodata, y + 1, y)
                 m = S.gen_mask(rng, nt, min_valid=None if rng.random() < 0.1 else 2)
                 cube[a, b] = np.where(m, nodata, y)
-        named = bool(it % 2)
+        named = bool(H.pick(it, 2, 2))
         da = xr.DataArray(cube, dims=["y", "x", "time"], coords={"time": pd.date_range("2020-01-01", periods=nt, freq="10D")},
                           attrs={"nodata": nodata}, name="ndvi" if named else None)
-        order = [("y", "x", "time"), ("time", "y", "x"), ("y", "time", "x")][it % 3]
+        order = [("y", "x", "time"), ("time", "y", "x"), ("y", "time", "x")][H.pick(it, 1, 3)]  # every mode meets every order
         da = da.transpose(*order)
+        R.count(f"accessor_mode{it % 3}_{'_'.join(order)}")
         mode = it % 3
         p = float([0.5, rng.uniform(0.05, 0.95), 0.01, 0.99, rng.uniform(0.05, 0.95)][it % 5])  # 0.5 is a value people special-case
         llas = S.gen_llas(rng)
@@ -281,7 +284,7 @@ def plan(tier, seed):
         specs.append({"kind": "lc", "sub": i, "cases": 120 if q else 5000, "budget_s": 110 if q else 600})
     specs.append({"kind": "tyx", "sub": 0, "cases": 14 if q else 400, "budget_s": 100 if q else 600})
     for i in range(2 if q else 8):
-        specs.append({"kind": "accessor", "sub": i, "cases": 24 if q else 400, "budget_s": 110 if q else 600})
+        specs.append({"kind": "accessor", "sub": i, "cases": 45 if q else 600, "budget_s": 110 if q else 600})
     return specs
 
 
